@@ -55,6 +55,9 @@ pub struct ReplayFile {
     pub signature: String,
     pub message: String,
     pub rendering: String,
+    /// tier whose generator decodes a `Words` case (sizes differ between tiers); empty = quick
+    #[serde(default)]
+    pub tier: String,
 }
 
 #[derive(Clone, Debug, Serialize, Deserialize)]
